@@ -245,11 +245,11 @@ ADDENDA = {
     "C04": "Added: in the plaintext loop the framing marker is examined before any give-up return. A Noise frame is consumed from the buffer only after its handler returned (a frame failing authentication stays at the head and fails again until connection_lost arrives), unless every authenticating call is handled locally. No normal exit of the READY handler avoids the decrypt; no function on the report/close path writes the receive buffer (the plaintext helper stays fail-closed through the rejected byte at its head). Reporting an error cannot raise by itself (expression totality of the helpers' error path). A handler that can catch InvalidTag keeps its mapping to the invalid-key error. (R4) the ephemeral key of a session is the Noise library's own: the package overrides no key generation, supplies no key pair and registers no key agreement in its backend.",
     "C05": "Added (R3): the one-shot guard already refuses a second caller when the phase first suspends (state left, or an in-progress marker tested by the guard is set) - no two overlapping attempts on one object. (R6) disconnect(), force_disconnect() and report_fatal_error() reach the closer on every normal path; a transport write error reaches send_messages' reporting handler as a class it catches (nothing below converts or swallows it). The set of visible states is exactly the five of the statement.",
     "C06": "Added (R2): the version guard is evaluated over major 0..300 x minor pairs with APIVersion as the ordered pair its dataclass comparison uses. (R1) after the responses arrived nothing ends the exchange before each verdict; (R5) the parameter object the verdicts read is the client's live one - bound once on each side, handed over by reference, updated in place by the expected_name setter, not frozen. APIClient.connect / finish_connection pass the caller's login flag through unchanged. The login flag is never rebound on its way to the exchange.",
-    "C07": "Added: every future completed by the closer and its callees is tested not-done first (an InvalidStateError after CLOSED would lose the callback); the client's hook invokes the callback bound by value from this start_connection() call (or an attribute every call overwrites unconditionally). The client's hook passes the connection's reason to the user's callback unchanged. A stop callback remembered in client state is stored only once start_connection() can no longer be refused. The task running the user's stop coroutine is created on the running loop.",
-    "C09": "Added (R3): a wrong framing marker is diagnosed before any give-up return of the plaintext loop; in the closer the connect-phase interrupts are triggered before the frame helper is closed (FIFO wake-up order decides which error the connecting task reports). Building a connection error cannot fail (no raising lookup in the error constructors and the helpers used while constructing one); write-path rule shared with C05.R6. The interruption sentinel stays outside the connection-error hierarchy. (R1) awaits of callback-completed futures are bounded by timers that only act on a pending future, never by asyncio.timeout()/wait_for(). (R2) clean-up blocks of a try that awaits reach through Optional attributes only under a test of them.",
+    "C07": "Added: every future completed by the closer and its callees is tested not-done first (an InvalidStateError after CLOSED would lose the callback); the client's hook invokes the callback bound by value from this start_connection() call (or an attribute every call overwrites unconditionally). The client's hook passes the connection's reason to the user's callback unchanged. A stop callback remembered in client state is stored only once start_connection() can no longer be refused. The task running the user's stop coroutine is created on the running loop. (R3) a future that disconnect() may await in front of the graceful marker is forgotten on every path of whoever completes it.",
+    "C09": "Added (R3): a wrong framing marker is diagnosed before any give-up return of the plaintext loop; in the closer the connect-phase interrupts are triggered before the frame helper is closed (FIFO wake-up order decides which error the connecting task reports). Building a connection error cannot fail (no raising lookup in the error constructors and the helpers used while constructing one); write-path rule shared with C05.R6. The interruption sentinel stays outside the connection-error hierarchy. (R1) awaits of callback-completed futures are bounded by timers that only act on a pending future, never by asyncio.timeout()/wait_for(). (R2) clean-up blocks of a try that awaits reach through Optional attributes only under a test of them; definite assignment of locals in every function of the package (one confirmed exemption); no handler naming a connection-error class replaces the caught error by a newly built one.",
     "C10": "Added (R2): a cancelled pong deadline is reset to None on the dispatcher path, so the `is None` arm guard fires again. (R1) on an open connection the dispatcher has no normal exit that avoids the parse (no per-type fast path skipping the liveness bookkeeping); (R3) a time handed to the scheduler through a local is read after the last suspension point.",
     "C11": "Added (R2): the request's timeout timer is cancelled or has fired on every exit. The registered response callback has exactly one binding (no second, cheaper collector for some argument combination). No bare future completion is registered as a message handler.",
-    "C14": "Added (R3): from_dict keeps a field iff its key is present (or missing keys are not ignored) - never depending on the stored value. The float conversion is not memoised; model conversions never choose between dictionary entries by truthiness. No two fields share the metadata mapping the converter is recorded in.",
+    "C14": "Added (R3): from_dict keeps a field iff its key is present (or missing keys are not ignored) - never depending on the stored value. The float conversion is not memoised; model conversions never choose between dictionary entries by truthiness. No two fields share the metadata mapping the converter is recorded in. The fields of a model are enumerated by dataclasses.fields of that very class (directly or under a cache keyed by the class object).",
     "C19": "Added (R3): a failing connect phase clears the installed connection only while it is still the phase's own. Nothing between closing the connection and forgetting it in APIClient.disconnect can raise by itself. With a connection installed every path of disconnect() closes it. Nothing after the guarded phase of start_connection / finish_connection can raise by itself.",
     "C08": "Added: the 'timer already fired' exemption of R2 holds only for a future created in the same function. (R7) package callers await the graceful close directly, or its closer sits in a finally covering the awaits. (R8) every library call on the release path is one of a frozen list of non-raising release operations (the sequence cannot be cut short). (R8) no expression in the closer or before it in report_fatal_error can raise by itself; (R9) a fresh resource is registered for the closer before anything else is done with it.",
     "C13": "Added: the message parsed is an instance of the class looked up for this very packet; the folded value of every registration call's type set (comprehensions over the registry included) contains only server- or both-originated types.",
@@ -258,7 +258,7 @@ ADDENDA = {
     "C17": "Added (R4): the unsubscribe function is located by role and sees the pending start task at call time (a slot rebound by start requests is not bound by value). Buffered camera chunks are only dropped with their completed image; the start handler's result is never replaced before the answer; only the unsubscribe function cancels a start task.",
     "C12": "Added: a range-guarded registry lookup outside the try is judged per id. A parsed message always reaches the subscriber lookup.",
     "C16": "Added: the Bluetooth message callbacks contain no expression that can raise by itself. Bluetooth operations are not serialised behind a lock / semaphore / event. Definite assignment of locals in every Bluetooth function of the client (no path ends in UnboundLocalError instead of its outcome).",
-    "C18": "Added: listen / unlisten take the zeroconf instance from the manager at the call; the failure handler has no raise / early return of its own.",
+    "C18": "Added: listen / unlisten take the zeroconf instance from the manager at the call; the failure handler has no raise / early return of its own. (R3) no handler naming a connection-error class replaces the caught error by a newly built one (the back-off class depends on the subclass reaching the manager).",
 }
 
 UNDER_CONSTRUCTION = "rule set not built yet in this round (see DESIGN.md section 5 for the planned static rules)"
